@@ -40,6 +40,9 @@ Proof. intros (_ & _ & H). rewrite !allocated_skel, H. tauto. Qed.
 Lemma reach_mono w w' r : (forall i, allocated w i -> allocated w' i) -> (forall p c, lists w p c -> lists w' p c) ->
   forall x, Reach w r x -> Reach w' r x.
 Proof. intros Ha Hl x H. induction H; [constructor; auto|econstructor; eauto]. Qed.
+Lemma reach_mono_root w w' r : allocated w' r -> (forall p c, lists w p c -> lists w' p c) ->
+  forall x, Reach w r x -> Reach w' r x.
+Proof. intros Ha Hl x H. induction H; [constructor; auto|econstructor; eauto]. Qed.
 Lemma st_reach w w' r x : same_tree w w' -> (Reach w' r x <-> Reach w r x).
 Proof.
   intros S. split; apply reach_mono; intros; try (apply (st_alloc _ _ _ S); auto); try (apply (st_lists _ _ _ _ S); auto).
@@ -169,6 +172,12 @@ Proof.
   - exfalso. eapply MI_root_parent; eauto.
   - pose proof (MI_honest _ _ _ _ _ M (MI_reach_good _ _ _ _ M Hrp) Hl) as Hp'.
     rewrite (par_fun _ _ _ _ Hp Hp'). exact Hrp.
+Qed.
+
+Lemma MI_root_alloc D Imp w : MI D Imp w -> allocated w r.
+Proof.
+  intros M. destruct Hr_root as (k & Hk). rewrite <- (mi_roots _ _ _ M), <- (roots_mask D) in Hk.
+  destruct (c_roots _ (mi_core _ _ _ M) _ _ Hk) as (n & Hn & _). apply (alloc_mask D). eexists; eauto.
 Qed.
 
 Lemma MI_alloc D Imp w i : MI D Imp w -> (allocated w i <-> i < w_next w).
@@ -427,5 +436,201 @@ Lemma merge_element_S fl pa files pb nf :
    import_new_items T pa (wk_b_only wk) 0 nf min_ver_b;;
    subs_loop fl files nf (wk_merge wk))%W.
 Proof. reflexivity. Qed.
+
+Definition shared_subs (fl : nat) (files : list N) (nf : N) : list (id * id) -> world -> bool :=
+  fix subs (l : list (id * id)) (wc : world) {struct l} : bool :=
+    match l with
+    | [] => false
+    | (ea, eb) :: rest =>
+      match w_nodes wc ea with
+      | None => false
+      | Some nea =>
+        let files' := if negb (is_empty (n_files nea)) then n_files nea else files in
+        merge_shared T LATEST name_definition_ref fl ea files' eb nf wc ||
+        match (merge_element T LATEST name_definition_ref fl ea files' eb nf;;
+               modify_node ea (fun x => if negb (is_empty (n_files x))
+                                        then set_files x (set_add nf (n_files x)) else x))%W wc with
+        | Val (OK _, wn) => subs rest wn
+        | _ => false
+        end
+      end
+    end.
+
+Lemma merge_shared_S fl pa files pb nf w :
+  merge_shared T LATEST name_definition_ref (S fl) pa files pb nf w =
+  match merge_decisions T LATEST name_definition_ref pa files pb nf w with
+  | None => false
+  | Some wk =>
+    walk_shared wk ||
+    match (restrict_a_only (wk_a_only wk) files;;
+           import_new_items T pa (wk_b_only wk) 0 nf (min_ver_of LATEST nf w))%W w with
+    | Val (OK _, w2) => shared_subs fl files nf (wk_merge wk) w2
+    | _ => false
+    end
+  end.
+Proof. reflexivity. Qed.
+
+(* a sub-element (in w1) of an incoming element that has not been merged yet is untouched *)
+Lemma kid_fresh D Imp w pb x : MI D Imp w -> ~ In pb D -> base <= pb -> lists w1 pb x ->
+  ~ In x D /\ ~ In x Imp /\ x <> pb /\ base <= x.
+Proof.
+  intros M HpD Hb Hl. pose proof (c_up _ C1 _ _ Hl) as Hp.
+  assert (Huniq : forall q, lists w1 q x -> q = pb).
+  { intros q Hq. apply (c_up _ C1) in Hq. eapply par_fun; eauto. }
+  split; [|split; [|split]].
+  - intros Hin. destruct (mi_dup _ _ _ M _ Hin) as (_ & [->|(q & Hq & Hlq)]).
+    + apply par_parent_in in Hp as (_ & Hp). congruence.
+    + apply Huniq in Hlq. subst. auto.
+  - intros Hin. destruct (mi_imp _ _ _ M _ Hin) as (_ & _ & q & Hq & Hlq). apply Huniq in Hlq. subst. auto.
+  - intros ->. eapply ancs_par_irrefl; [|exact Hp|constructor]. apply (c_depth _ C1). destruct Hp as (n & Hn & _). eexists; eauto.
+  - destruct (N.lt_ge_cases x base) as [Hlt|]; auto. pose proof (Hold_up _ _ Hlt Hp). lia.
+Qed.
+
+Lemma ancs_kid p c : lists w1 p c -> AncS w1 p c /\ c <> p.
+Proof.
+  intros Hl. pose proof (c_up _ C1 _ _ Hl) as Hp. split; [eapply A_up; [exact Hp|constructor]|].
+  intros ->. eapply ancs_par_irrefl; [|exact Hp|constructor]. apply (c_depth _ C1). destruct Hp as (n & Hn & _). eexists; eauto.
+Qed.
+Lemma ancs_below p c d : lists w1 p c -> AncS w1 c d -> AncS w1 p d /\ d <> p.
+Proof.
+  intros Hl Ha. destruct (ancs_kid _ _ Hl) as (A & B). split; [eapply ancs_trans; eauto|].
+  intros ->. pose proof (c_up _ C1 _ _ Hl) as Hp.
+  eapply ancs_par_irrefl; [|exact Hp|exact Ha]. apply (c_depth _ C1). destruct Hp as (n & Hn & _). eexists; eauto.
+Qed.
+
+Definition MergePost (pb : id) (D Imp : list id) (w : world) (D' Imp' : list id) (w' : world) : Prop :=
+  MI D' Imp' w' /\ (forall p c, lists w p c -> lists w' p c) /\
+  (forall d, In d D -> In d D') /\ (forall y, In y Imp -> In y Imp').
+
+Definition MergeOK (fuel : nat) : Prop := forall pa files pb nf D Imp w w',
+  MI D Imp w -> Reach w r pa -> ~ In pb D -> ~ In pb Imp -> base <= pb ->
+  (pb = rb \/ exists q, In q D /\ lists w1 q pb) ->
+  merge_shared T LATEST name_definition_ref fuel pa files pb nf w = false ->
+  merge_element T LATEST name_definition_ref fuel pa files pb nf w = Val (OK tt, w') ->
+  exists D' Imp', MergePost pb D Imp w D' Imp' w' /\
+    (forall d, In d D' -> In d D \/ AncS w1 pb d) /\
+    (forall y, In y Imp' -> In y Imp \/ (AncS w1 pb y /\ y <> pb)).
+
+Lemma subs_ok fl files nf pb : MergeOK fl ->
+  forall l Dc Ic wc w', MI Dc Ic wc -> In pb Dc ->
+    (forall ea eb, In (ea, eb) l -> Reach wc r ea /\ lists w1 pb eb /\ ~ In eb Dc /\ ~ In eb Ic) ->
+    NoDup (map snd l) ->
+    shared_subs fl files nf l wc = false -> subs_loop fl files nf l wc = Val (OK tt, w') ->
+    exists D' Imp', MergePost pb Dc Ic wc D' Imp' w' /\
+      (forall d, In d D' -> In d Dc \/ (AncS w1 pb d /\ d <> pb)) /\
+      (forall y, In y Imp' -> In y Ic \/ (AncS w1 pb y /\ y <> pb)).
+Proof.
+  intros IHf. induction l as [|[ea eb] rest IHl]; intros Dc Ic wc w' M HpbD Hall Hnd Hs H.
+  - cbn [subs_loop] in H. apply wret_inv in H as (_ & ->). exists Dc, Ic. split; [|split; auto].
+    split; [exact M|]. split; auto.
+  - cbn [subs_loop] in H. cbn [shared_subs] in Hs. cbn [map snd] in Hnd. apply NoDup_cons_iff in Hnd as (Hebr & Hnd).
+    destruct (Hall ea eb (or_introl eq_refl)) as (Hrea & Hleb & HebD & HebI).
+    okstep H ean0 wx E1. apply get_node_inv in E1 as (ean & Hean & [= ->] & ->).
+    okstep H u1 wm Em. okstep H u2 wn En. destruct u1, u2.
+    rewrite Hean in Hs. cbv zeta in Hs. apply orb_false_iff in Hs as (Hs1 & Hs2).
+    erewrite wbind_val in Hs2 by exact Em. rewrite En in Hs2.
+    assert (Hbpb : base <= pb) by (apply (mi_dup _ _ _ M) in HpbD; tauto).
+    assert (Hbeb : base <= eb).
+    { destruct (N.lt_ge_cases eb base) as [Hlt|]; auto. pose proof (Hold_up _ _ Hlt (c_up _ C1 _ _ Hleb)). lia. }
+    destruct (IHf ea _ eb nf Dc Ic wc wm M Hrea HebD HebI Hbeb (or_intror (ex_intro _ pb (conj HpbD Hleb))) Hs1 Em)
+      as (D2 & I2 & (M2 & Hmono2 & HD2 & HI2) & HcD2 & HcI2).
+    assert (Smn : same_tree wm wn).
+    { eapply stp_modify_node; [|exact En]. intros n. cbv beta. destruct (negb (is_empty (n_files n))); split; reflexivity. }
+    pose proof (MI_same_tree _ _ _ _ Smn M2) as Mn.
+    assert (Hmono_n : forall p c, lists wc p c -> lists wn p c).
+    { intros p c Hl. apply (st_lists _ _ _ _ Smn). auto. }
+    destruct (IHl D2 I2 wn w' Mn (HD2 _ HpbD)) as (D3 & I3 & (M3 & Hmono3 & HD3 & HI3) & HcD3 & HcI3); auto.
+    { intros ea' eb' Hin. destruct (Hall ea' eb' (or_intror Hin)) as (A & B & Cc & Dd).
+      assert (Hne : eb <> eb'). { intros ->. apply Hebr. apply in_map_iff. exists (ea', eb'). auto. }
+      split; [|split; [exact B|split]].
+      - eapply reach_mono_root; [eapply MI_root_alloc; eauto | exact Hmono_n | exact A].
+      - intros Hin2. destruct (HcD2 _ Hin2) as [Hd|Hd]; auto.
+        apply Hne. eapply (siblings_not_nested w1 pb); eauto.
+      - intros Hin2. destruct (HcI2 _ Hin2) as [Hd|(Hd & _)]; auto.
+        apply Hne. eapply (siblings_not_nested w1 pb); eauto. }
+    exists D3, I3. split; [|split].
+    + split; [exact M3|]. split; [intros p c Hl; apply Hmono3; auto|]. split; auto.
+    + intros d Hd. destruct (HcD3 _ Hd) as [Hd2|Hd2]; auto. destruct (HcD2 _ Hd2) as [Hd1|Hd1]; auto.
+      right. eapply ancs_below; eauto.
+    + intros y Hy. destruct (HcI3 _ Hy) as [Hy2|Hy2]; auto. destruct (HcI2 _ Hy2) as [Hy1|(Hy1 & _)]; auto.
+      right. eapply ancs_below; eauto.
+Qed.
+
+Theorem merge_ok : forall fuel, MergeOK fuel.
+Proof.
+  induction fuel as [|fl IHf]; intros pa files pb nf D Imp w w' M Hpa HpD HpI Hb Hup Hs H; [discriminate H|].
+  rewrite merge_element_S in H. rewrite merge_shared_S in Hs.
+  okstep H w0 wx E0. apply wget_inv in E0 as ([= ->] & ->).
+  okstep H na0 wx E1. apply get_node_inv in E1 as (na & Hna & [= ->] & ->).
+  okstep H nb0 wx E2. apply get_node_inv in E2 as (nb & Hnb & [= ->] & ->).
+  okstep H la0 wx E3. apply wl_inv in E3 as (la & Ela & [= ->] & ->).
+  okstep H lb0 wx E4. apply wl_inv in E4 as (lb & Elb & [= ->] & ->).
+  okstep H sp0 wx E5. apply wl_inv in E5 as (sp & Esp & [= ->] & ->).
+  okstep H wk wx E6.
+  destruct (walk _ _ _ _ _ _ _ _ _) as [[wk0|e0]| |] eqn:EW in E6; try discriminate E6. injection E6 as -> <-.
+  okstep H u1 wr Er. okstep H u2 wi Ei. destruct u1, u2.
+  (* the instrumented run *)
+  unfold merge_decisions in Hs. cbv zeta in Hs. rewrite Hna, Hnb, Ela, Elb, Esp, EW in Hs.
+  apply orb_false_iff in Hs as (Hws & Hs).
+  assert (Eri : (restrict_a_only (wk_a_only wk) files;;
+                 import_new_items T pa (wk_b_only wk) 0 nf (min_ver_of LATEST nf w))%W w = Val (OK tt, wi)).
+  { erewrite wbind_val by exact Er. exact Ei. }
+  rewrite Eri in Hs. clear Eri.
+  (* pb becomes a merged element *)
+  pose proof (MI_enter D Imp w pb M HpD HpI Hb Hup) as M0.
+  assert (HpbD0 : In pb (pb :: D)) by (left; auto).
+  assert (Hnr : ~ Reach w r pb) by (intros Hre; apply (MI_reach_good _ _ _ _ M0 Hre); auto).
+  assert (Hkb : kids nb = kids_of w1 pb).
+  { rewrite <- (mi_kids _ _ _ M0) by auto. unfold kids_of. rewrite Hnb. reflexivity. }
+  pose proof (keys_of_ids _ _ _ _ _ _ Ela) as Ila. pose proof (keys_of_ids _ _ _ _ _ _ Elb) as Ilb.
+  assert (NDb : NoDup (map k_id lb)).
+  { rewrite Ilb. fold (kids nb). rewrite Hkb. unfold kids_of. destruct (w_nodes w1 pb) as [n1|] eqn:E1; [|constructor].
+    eapply c_nodup; eauto. }
+  destruct (walk_ids _ _ _ _ _ _ _ _ _ _ EW NDb) as (WA & WB & WC & WD); [constructor|intros x []|].
+  cbn [wk_merge wk_b_only bo map] in WA, WB, WC.
+  assert (Hlb1 : forall x, In x (map k_id lb) -> lists w1 pb x).
+  { intros x Hx. rewrite Ilb in Hx. fold (kids nb) in Hx. rewrite Hkb in Hx. apply lists_kids_of. exact Hx. }
+  assert (Hla1 : forall x, In x (map k_id la) -> lists w pa x).
+  { intros x Hx. rewrite Ila in Hx. exists na. auto. }
+  (* restrict: files only *)
+  pose proof (stp_restrict_a_only _ _ _ _ _ Er) as Sr.
+  pose proof (MI_same_tree _ _ _ _ Sr M0) as Mr.
+  assert (Hpa_r : Reach wr r pa) by (apply (st_reach _ _ _ _ Sr); auto).
+  (* import *)
+  destruct (import_ok pa pb nf (min_ver_of LATEST nf w) (wk_b_only wk) 0 (pb :: D) Imp wr wi Mr HpbD0 Hpa_r)
+    as (Imp2 & Mi & HI2 & Hmono_i); [| exact WD | exact Ei |].
+  { intros x Hx. destruct (WC x Hx) as [[]|Hx']. apply Hlb1 in Hx'.
+    destruct (kid_fresh _ _ _ _ _ M HpD Hb Hx') as (A & B & Cc & _). split; auto. split; auto. intros [<-|Hin]; auto. }
+  (* the merge pairs *)
+  assert (Hw : walk_shared wk = false) by exact Hws.
+  unfold walk_shared in Hw. apply orb_false_iff in Hw as (Hnd & Hdis).
+  apply negb_false_iff in Hnd. apply nodupb_nodup in Hnd.
+  assert (Hpairs : forall ea eb, In (ea, eb) (wk_merge wk) ->
+            Reach wi r ea /\ lists w1 pb eb /\ ~ In eb (pb :: D) /\ ~ In eb Imp2).
+  { intros ea eb Hin.
+    assert (Hea : In ea (map k_id la)).
+    { destruct (WA ea) as [[]|]; auto. apply in_map_iff. exists (ea, eb). auto. }
+    assert (Heb : In eb (map k_id lb)).
+    { destruct (WB eb) as [[]|[|]]; auto. apply in_map_iff. exists (ea, eb). auto. }
+    apply Hlb1 in Heb. destruct (kid_fresh _ _ _ _ _ M HpD Hb Heb) as (A & B & Cc & _).
+    split; [|split; [exact Heb|split]].
+    - eapply reach_mono_root; [eapply MI_root_alloc; eauto | exact Hmono_i |].
+      apply (st_reach _ _ _ _ Sr). econstructor; [exact Hpa|]. apply Hla1. exact Hea.
+    - intros [<-|Hin']; auto.
+    - intros Hin'. apply HI2 in Hin' as [Hin'|Hin']; auto.
+      apply in_map_iff in Hin' as ((b0 & n0) & E & Hb0). cbn in E. subst b0.
+      assert (existsb (fun b => inb (fst b) (map snd (wk_merge wk))) (wk_b_only wk) = true); [|congruence].
+      apply existsb_exists. exists (eb, n0). split; auto. apply inb_in. apply in_map_iff. exists (ea, eb). auto. }
+  assert (HpbDc : In pb (pb :: D)) by (left; auto).
+  destruct (subs_ok fl files nf pb IHf (wk_merge wk) (pb :: D) Imp2 wi w' Mi HpbDc Hpairs Hnd Hs H)
+    as (D3 & I3 & (M3 & Hmono3 & HD3 & HI3) & HcD3 & HcI3).
+  exists D3, I3. split; [|split].
+  - split; [exact M3|]. split.
+    + intros p c Hl. apply Hmono3. apply Hmono_i. apply (st_lists _ _ _ _ Sr). exact Hl.
+    + split; [intros d Hd; apply HD3; right; auto|]. intros y Hy. apply HI3. apply HI2. auto.
+  - intros d Hd. destruct (HcD3 _ Hd) as [[<-|Hd2]|(Hd2 & _)]; auto. right. constructor.
+  - intros y Hy. destruct (HcI3 _ Hy) as [Hy2|Hy2]; auto. apply HI2 in Hy2 as [Hy2|Hy2]; auto.
+    right. destruct (WC y Hy2) as [[]|Hy3]. apply Hlb1 in Hy3. apply ancs_kid. exact Hy3.
+Qed.
 
 End Merge.
